@@ -37,6 +37,16 @@ def params(tier):
             {"sig": "B", "period": 1.0, "times": 1, "deferred": False, "kind": "lifo"}),
            ({"sig": "A", "period": 0.5, "times": 0, "deferred": False, "kind": "lifo"},
             {"sig": "A", "period": 0.5, "times": 3, "deferred": True, "kind": "fifo"})]
+    # sources with the same signal started at different times, one of them already finished when the last one
+    # is started (a later timed post must not disturb the running ones)
+    late = [[{"sig": "A", "period": 0.25, "times": 1, "deferred": True, "kind": "fifo"},
+             {"sig": "A", "period": 0.5, "times": 3, "deferred": True, "kind": "fifo"},
+             {"sig": "B", "period": 0.5, "times": 1, "deferred": True, "kind": "lifo", "at": 0.75}],
+            [{"sig": "A", "period": 0.5, "times": 0, "deferred": False, "kind": "lifo"},
+             {"sig": "A", "period": 0.25, "times": 2, "deferred": False, "kind": "fifo"},
+             {"sig": "A", "period": 0.5, "times": 2, "deferred": True, "kind": "fifo", "at": 0.6}]]
+    for srcs in late:
+        ps.append({"sources": srcs, "bound": 0 if tier == "quick" else 1, "time_horizon": 2.0})
     for a, b in two:
         # two sources waking at the same instants multiply the free (cost 0) choices: shorter horizon in the quick tier
         ps.append({"sources": [a, b], "bound": 1 if tier == "quick" else 2, "time_horizon": 1.0 if tier == "quick" else 2.0})
